@@ -116,28 +116,121 @@ theorem cycleOf_inj (r : Rec) (seq : List Nat) (h : CycleOf r seq) (hnd : seq.No
       exact this.nodup_iff.mpr hnd
     exact inj_of_nodup_map (a :: t) hnd' x hx y hy hxy
 
-/-- `argsort` on (the relevant part of) an injective successor array is the predecessor -/
-theorem pred_eq (n : Nat) (r : Rec) (x y : Nat) (hx : x < n) (hxy : r x = y)
-    (huniq : ∀ i, i < n → r i = y → i = x) : pred n r y = x := by
-  unfold pred
-  cases hf : (List.range n).find? (fun i => r i == y) with
-  | none =>
-    have := List.find?_eq_none.mp hf x (List.mem_range.mpr hx)
-    simp [hxy] at this
-  | some i =>
-    have h1 := List.find?_some hf
-    have h2 := List.mem_of_find?_eq_some hf
-    simp at h1
-    simp [huniq i (List.mem_range.mp h2) h1]
+/-! ### `argsort` of a permutation is its inverse -/
 
-theorem pred_of_cycle (n : Nat) (r : Rec) (seq : List Nat) (hp : seq.Perm (List.range n))
-    (hc : CycleOf r seq) (x y : Nat) (hx : x < n) (hxy : r x = y) : pred n r y = x := by
-  have hnd : seq.Nodup := hp.nodup_iff.mpr List.nodup_range
-  apply pred_eq n r x y hx hxy
-  intro i hi hiy
-  have hi' : i ∈ seq := hp.mem_iff.mpr (List.mem_range.mpr hi)
-  have hx' : x ∈ seq := hp.mem_iff.mpr (List.mem_range.mpr hx)
-  exact cycleOf_inj r seq hc hnd hi' hx' (by rw [hiy, hxy])
+theorem insertBy_perm (key : Nat → Nat) (x : Nat) : ∀ l : List Nat, (insertBy key x l).Perm (x :: l) := by
+  intro l
+  induction l with
+  | nil => exact List.Perm.refl _
+  | cons y ys ih =>
+    simp only [insertBy]
+    split
+    · exact List.Perm.refl _
+    · exact (List.Perm.cons y ih).trans (List.Perm.swap x y ys)
+
+theorem isortBy_perm (key : Nat → Nat) : ∀ l : List Nat, (isortBy key l).Perm l := by
+  intro l
+  induction l with
+  | nil => exact List.Perm.refl _
+  | cons x xs ih => exact (insertBy_perm key x _).trans (List.Perm.cons x ih)
+
+theorem insertBy_sorted (key : Nat → Nat) (x : Nat) : ∀ l : List Nat,
+    l.Pairwise (fun a b => key a ≤ key b) → (insertBy key x l).Pairwise (fun a b => key a ≤ key b) := by
+  intro l
+  induction l with
+  | nil => intro _; simp [insertBy]
+  | cons y ys ih =>
+    intro h
+    simp only [insertBy]
+    have h' := List.pairwise_cons.mp h
+    split
+    · rename_i hxy
+      refine List.pairwise_cons.mpr ⟨?_, h⟩
+      intro z hz
+      rcases List.mem_cons.mp hz with rfl | hz
+      · exact hxy
+      · exact Nat.le_trans hxy (h'.1 z hz)
+    · rename_i hxy
+      refine List.pairwise_cons.mpr ⟨?_, ih h'.2⟩
+      intro z hz
+      have hz' : z ∈ x :: ys := (insertBy_perm key x ys).mem_iff.mp hz
+      rcases List.mem_cons.mp hz' with rfl | hz'
+      · omega
+      · exact h'.1 z hz'
+
+theorem isortBy_sorted (key : Nat → Nat) : ∀ l : List Nat,
+    (isortBy key l).Pairwise (fun a b => key a ≤ key b) := by
+  intro l
+  induction l with
+  | nil => simp [isortBy]
+  | cons x xs ih => exact insertBy_sorted key x _ ih
+
+/-- reading a permutation of `0..n-1` at its argsort gives `0..n-1` in order -/
+theorem argsortL_map (n : Nat) (r : Rec) (hp : ((List.range n).map r).Perm (List.range n)) :
+    (argsortL n r).map r = List.range n := by
+  have h1 : ((argsortL n r).map r).Perm (List.range n) :=
+    ((isortBy_perm r (List.range n)).map r).trans hp
+  have h2 : ((argsortL n r).map r).Pairwise (· ≤ ·) := by
+    rw [List.pairwise_map]; exact isortBy_sorted r (List.range n)
+  exact List.Perm.eq_of_pairwise (le := fun a b : Nat => a ≤ b) (by intro a b _ _ h1 h2; omega)
+    h2 ((List.pairwise_lt_range (n := n)).imp (by intro a b h; omega)) h1
+
+/-- **`argsort` of a permutation array is its inverse**: if the entries `rec[0..n-1]` are a permutation of
+`0..n-1` and `rec[x] = y`, then `rec.argsort()[y] = x`. -/
+theorem argsort_eq (n : Nat) (r : Rec) (hp : ((List.range n).map r).Perm (List.range n))
+    (x y : Nat) (hx : x < n) (hxy : r x = y) : argsort n r y = x := by
+  have hmap := argsortL_map n r hp
+  have hlen : (argsortL n r).length = n := by
+    have := congrArg List.length hmap; simpa using this
+  have hy : y < n := by
+    have : y ∈ (List.range n).map r := List.mem_map.mpr ⟨x, List.mem_range.mpr hx, hxy⟩
+    exact List.mem_range.mp (hp.mem_iff.mp this)
+  have hget : argsort n r y = (argsortL n r)[y]'(by omega) := by
+    simp [argsort, List.getD_eq_getElem?_getD, List.getElem?_eq_getElem (h := (by omega : y < (argsortL n r).length))]
+  have hval : r ((argsortL n r)[y]'(by omega)) = y := by
+    have := congrArg (fun l => l[y]?) hmap
+    simp only [List.getElem?_map, List.getElem?_range hy] at this
+    rw [List.getElem?_eq_getElem (h := (by omega : y < (argsortL n r).length))] at this
+    simpa using this
+  have hmemL : (argsortL n r)[y]'(by omega) < n := by
+    have : (argsortL n r)[y]'(by omega) ∈ List.range n :=
+      (isortBy_perm r (List.range n)).mem_iff.mp (List.getElem_mem _)
+    exact List.mem_range.mp this
+  have hnd : ((List.range n).map r).Nodup := hp.nodup_iff.mpr List.nodup_range
+  rw [hget]
+  exact inj_of_nodup_map (List.range n) hnd _ (List.mem_range.mpr hmemL) x (List.mem_range.mpr hx)
+    (by rw [hval, hxy])
+
+/-- the successor array of a cycle through `0..n-1` is a permutation of `0..n-1` -/
+theorem map_perm_of_cycle (n : Nat) (r : Rec) (seq : List Nat) (hp : seq.Perm (List.range n))
+    (hc : CycleOf r seq) : ((List.range n).map r).Perm (List.range n) := by
+  have h1 : ((List.range n).map r).Perm (seq.map r) := (hp.symm.map r)
+  refine h1.trans (List.Perm.trans ?_ hp)
+  cases seq with
+  | nil => simp
+  | cons x t =>
+    rw [cycleOf_map r x t hc]
+    exact (List.perm_append_comm : (t ++ [x]).Perm ([x] ++ t))
+
+theorem cycle_map_perm (r : Rec) (seq : List Nat) (hc : CycleOf r seq) : (seq.map r).Perm seq := by
+  cases seq with
+  | nil => simp
+  | cons x t =>
+    rw [cycleOf_map r x t hc]
+    exact (List.perm_append_comm : (t ++ [x]).Perm ([x] ++ t))
+
+/-- a cycle through all nodes but one fixed point `p` is still a permutation array -/
+theorem map_perm_of_cycle_fix (n : Nat) (r : Rec) (seq : List Nat) (p : Nat)
+    (hp : (p :: seq).Perm (List.range n)) (hc : CycleOf r seq) (hfix : r p = p) :
+    ((List.range n).map r).Perm (List.range n) := by
+  refine (hp.symm.map r).trans (List.Perm.trans ?_ hp)
+  simp only [List.map_cons, hfix]
+  exact List.Perm.cons p (cycle_map_perm r seq hc)
+
+/-- on a tour `argsort` is the predecessor array -/
+theorem argsort_of_cycle (n : Nat) (r : Rec) (seq : List Nat) (hp : seq.Perm (List.range n))
+    (hc : CycleOf r seq) (x y : Nat) (hx : x < n) (hxy : r x = y) : argsort n r y = x :=
+  argsort_eq n r (map_perm_of_cycle n r seq hp hc) x y hx hxy
 
 /-- updating the successor of a node outside the cycle does not matter -/
 theorem cycleOf_upd_notMem (r : Rec) (seq : List Nat) (v w : Nat) (hv : v ∉ seq) :
